@@ -429,11 +429,13 @@ func init() {
 	Register("C08", "model_checking", func(c *Ctx) {
 		r := c.R
 		alpha := c08Alphabet()
-		depth := 4
+		// quick: every sequence <= 3 from the empty database and <= 3 from a database holding the two sample documents;
+		// thorough: <= 4 and <= 4
+		depth := 3
 		if !c.Quick() {
-			depth = 5
+			depth = 4
 		}
-		var updEvents, noopCalls, failedCalls, events int64
+		var updEvents, noopCalls, failedCalls, events, storeFaults int64
 		cfg := e1.Config{
 			ReplayNames: c.ReplayCalls(),
 			Alphabet:    alpha,
@@ -459,6 +461,26 @@ func init() {
 					}
 				}
 				names := e1.Names(alpha, path)
+				// the same call on a store that rejects its commit: it reports the error and the visible log and
+				// contents stay as they were
+				if !failed && len(after.events) > len(before.events) && !strings.HasPrefix(names[len(names)-1], "ttl-setup") {
+					ws := world.New()
+					for _, ci := range path[:len(path)-1] {
+						alpha[ci].Do(ws)
+					}
+					b0 := c08Take(ws.Engine.Catalog())
+					ws.Store.FailNext = 1
+					o2 := alpha[path[len(path)-1]].Do(ws)
+					if ws.Store.FailNext == 0 {
+						atomic.AddInt64(&storeFaults, 1)
+						a0 := c08Take(ws.Engine.Catalog())
+						if len(a0.events) != len(b0.events) {
+							r.Violation("event-for-rejected-commit:"+callKind(names[len(names)-1]), fmt.Sprintf("%s on a store that rejects the commit returned %q and the change log grew from %d to %d events\n  calls: %s", names[len(names)-1], o2, len(b0.events), len(a0.events), strings.Join(names, " ; ")), map[string]interface{}{"calls": names, "store": "fails"})
+						}
+					}
+					ws.Store.FailNext = 0
+					ws.Close()
+				}
 				for _, v := range c08Check(before, after, failed) {
 					cls := v[0] + ":" + callKind(names[len(names)-1])
 					if v[0] == "update-description" {
@@ -470,6 +492,27 @@ func init() {
 			Stop: r.TooMany,
 		}
 		st := e1.BFS(cfg)
+		{
+			seeded := cfg
+			seeded.New = func() *world.World {
+				w := world.New()
+				alpha[0].Do(w)
+				alpha[1].Do(w)
+				return w
+			}
+			inner := cfg.After
+			seeded.After = func(w *world.World, path []int, pre interface{}, obs string) {
+				inner(w, append([]int{0, 1}, path...), pre, obs)
+			}
+			st2 := e1.BFS(seeded)
+			st.States += st2.States
+			st.Transitions += st2.Transitions
+			st.ReplayCalls += st2.ReplayCalls
+			st.Outcomes += st2.Outcomes
+			st.Nontrivial += st2.Nontrivial
+			st.Exhaustive = st.Exhaustive && st2.Exhaustive
+			r.Set("seeded_states", st2.States)
+		}
 		cases, trunc := c08Retention(c)
 		// retention as the engine applies it at commit time: a database whose change log starts with three aged events,
 		// MinOplogSize 2, MaxOplogSize 1000, MinOplogAge ~0, MaxOplogAge 1 h; after every commit of every sequence of
@@ -550,6 +593,7 @@ func init() {
 		r.Set("update_events_checked", updEvents)
 		r.Set("calls_without_event", noopCalls)
 		r.Set("failed_calls", failedCalls)
+		r.Set("calls_repeated_on_a_failing_store", storeFaults)
 		r.Set("retention_cases", cases)
 		r.Set("retention_cases_truncating", trunc)
 		r.Set("exhaustive", st.Exhaustive && !r.TooMany())
